@@ -591,7 +591,10 @@ def handle_end_progs(state: TokenizerState) -> Iterator[TokenInfo]:
         return
 
     if state.in_fstring() or state.in_colon():
+        pos = state.pos
         yield from handle_fstring_progs(state, state.end_progs[-1])
+        if state.pos != pos:
+            return  # tokens were produced: the rest of the line is looked at again (it is not literal text yet)
         # else:
         #     raise TokenError(f"Expected {endprog.quote} inside f-string", (state.lnum, state.pos))
 
